@@ -45,6 +45,8 @@ def install():
     helpers.parallel = pools.NAMESPACE
     hypertuner.parallel = pools.NAMESPACE
     multitask.parallel = pools.NAMESPACE
+    from . import env
+    env.install()
 
     # -- exported optimizers
     for n in dir(pyvolutionary):
